@@ -314,35 +314,66 @@ func reportViolation(tr *engine.Trace, v *engine.Violation, prop string, vseed, 
 	base := fmt.Sprintf("%s-%d-%d", prop, vseed, idx)
 	fullPath := filepath.Join(outDir, base+".full.trace.json")
 	full.Save(fullPath)
+	self, _ := os.Executable()
+	freshReplay := func(path string, attempts int) bool {
+		for a := 0; a < attempts; a++ {
+			cmd := exec.Command(self, "replay", "-quiet", path)
+			outb, _ := cmd.CombinedOutput()
+			if cmd.ProcessState != nil && cmd.ProcessState.ExitCode() == 1 && strings.Contains(string(outb), "VIOLATION property="+prop) {
+				return true
+			}
+		}
+		return false
+	}
 	steps := tr.Steps[:cut]
-	if prop == "C10" {
+	probabilistic := prop == "C10"
+	if probabilistic {
 		steps = tr.Steps // C10 compares whole executions; cutting is done by the shrinker
 	}
 	sh := &engine.Shrinker{Base: tr, Want: v, Deadline: time.Now().Add(60 * time.Second), MaxExec: 1500, MkCheck: func() engine.Checker { return engine.NewChecker(prop) }}
-	if prop == "C10" {
+	if probabilistic {
 		// the map-iteration-order sub-case replays only probabilistically (DESIGN §2.6)
-		sh.Repeats, sh.AnyRule = 6, true
-		sh.Deadline = time.Now().Add(120 * time.Second)
+		sh.Repeats, sh.AnyRule = 12, true
+		sh.Deadline = time.Now().Add(150 * time.Second)
+		sh.MaxExec = 4000
+	}
+	// C10 fallback: a difference between executions that was observed but does not come back in many
+	// fresh executions depends on process history or on a rare map order; it is still reported, with
+	// the complete trace, and the report says so.
+	fallback := func(why string) *ViolReport {
+		if !probabilistic {
+			return nil
+		}
+		vv := *v
+		if freshReplay(fullPath, 3) {
+			vv.Message += " (not minimised: " + why + "; the complete trace reproduces it in a fresh process)"
+		} else {
+			vv.Message += " (observed once; " + why + "; not reproduced in 24 fresh executions of the complete trace: depends on process history or on a rare map iteration order)"
+		}
+		return &ViolReport{Viol: vv, Run: idx, Seed: tr.Seed, TracePath: fullPath, FullPath: fullPath, MinSteps: len(tr.Steps), FullSteps: len(tr.Steps), Execs: sh.Execs}
 	}
 	if !sh.Fails(steps) {
 		// the cut trace must fail the same way; if it does not, fall back to the full one
 		steps = tr.Steps
 		if !sh.Fails(steps) {
-			return nil
+			return fallback("re-execution in the same process did not show it again")
 		}
+	}
+	if probabilistic {
+		sh.Repeats = 6
 	}
 	minSteps := sh.Shrink(steps)
 	mt := tr.CloneWithSteps(minSteps)
 	var w *engine.World
 	var err error
-	for try := 0; try < 1+3*sh.Repeats; try++ {
+	for try := 0; try < 1+4*sh.Repeats; try++ {
 		w, err = engine.ReplayTrace(mt, engine.NewChecker(prop))
 		if err == nil && w.Viol != nil {
 			break
 		}
 	}
 	if err != nil || w.Viol == nil {
-		return nil
+		return fallback("the minimised trace did not show it again")
 	}
 	mt.Expect = &engine.ExpectViol{Property: w.Viol.Property, Rule: w.Viol.Rule, Signature: w.Viol.Signature, Message: w.Viol.Message, Step: w.Viol.Step}
 	minPath := filepath.Join(outDir, base+".trace.json")
@@ -350,12 +381,13 @@ func reportViolation(tr *engine.Trace, v *engine.Violation, prop string, vseed, 
 		return nil
 	}
 	// fresh OS process replay
-	self, _ := os.Executable()
-	cmd := exec.Command(self, "replay", "-quiet", minPath)
-	outb, _ := cmd.CombinedOutput()
-	if cmd.ProcessState == nil || cmd.ProcessState.ExitCode() != 1 || !strings.Contains(string(outb), "VIOLATION property="+prop) {
-		fmt.Fprintf(os.Stderr, "fresh-process replay of %s did not reproduce: %s\n", minPath, string(outb))
-		return nil
+	attempts := 1
+	if probabilistic {
+		attempts = 3
+	}
+	if !freshReplay(minPath, attempts) {
+		fmt.Fprintf(os.Stderr, "fresh-process replay of %s did not reproduce\n", minPath)
+		return fallback("the minimised trace did not reproduce in a fresh process")
 	}
 	return &ViolReport{Viol: *w.Viol, Run: idx, Seed: tr.Seed, TracePath: minPath, FullPath: fullPath, MinSteps: len(minSteps), FullSteps: len(tr.Steps), Execs: sh.Execs}
 }
